@@ -1349,7 +1349,37 @@ def c18(tier, rng):
         for kind, text, back_ in variants:
             c = prog_case(text, kind, stdin=b'5\n7\nabc\n', group=g, note=back_)
             cases.append(c)
-    rule = (f'{len(bases)} programs (generated, a third fault-free, and the shipped examples) x 9 variants: re-laid-out twice with blanks, tabs, line breaks outside ধরি declarations and {len(COMMENTS)} comment shapes between tokens; '
+    # (e), targeted: for every ordered pair of binary operators (and every prefix operator in front of one), the
+    # unparenthesised expression and the one parenthesised as the published ladder prescribes must print the same
+    LADDER = [['||', KW['or']], ['&&', KW['and']], ['|'], ['^'], ['&'], ['==', '!='], ['<', '<=', '>', '>='], ['<<', '>>'], ['-', '+'], ['/', '*', '%'], ['**']]
+    level = {op: k for k, ops_ in enumerate(LADDER) for op in ops_}
+    allops = [op for ops_ in LADDER for op in ops_]
+    triples = [('7', '3', '2'), ('2', '3', '2'), ('1', '0', '5'), ('12', '4', '3')]
+    gi = 0
+    for o1 in allops:
+        for o2 in allops:
+            for (x, y, z) in (triples if tier == 'thorough' else triples[:2]):
+                plain = f'{P} {x} {o1} {y} {o2} {z};\n'
+                grouped = (f'{P} ({x} {o1} {y}) {o2} {z};\n' if level[o1] >= level[o2] else f'{P} {x} {o1} ({y} {o2} {z});\n')
+                g = f'pair{gi}'; gi += 1
+                cases.append(prog_case(plain, 'base', group=g))
+                cases.append(prog_case(grouped, 'ladder-parens', group=g))
+    for pre in ['-', '!', '~']:
+        for o2 in allops:
+            for (x, y) in [('7', '2'), ('2', '3'), ('0', '1')]:
+                g = f'pre{gi}'; gi += 1
+                cases.append(prog_case(f'{P} {pre}{x} {o2} {y};\n', 'base', group=g))
+                cases.append(prog_case(f'{P} ({pre}{x}) {o2} {y};\n', 'ladder-parens', group=g))
+                g = f'pre{gi}'; gi += 1
+                cases.append(prog_case(f'{P} {y} {o2} {pre}{x};\n', 'base', group=g))
+                cases.append(prog_case(f'{P} {y} {o2} ({pre}{x});\n', 'ladder-parens', group=g))
+    for chain, grouped in [('a = b = 3', 'a = (b = 3)'), ('t[0][1]', '(t[0])[1]'), ('o.p.q', '(o.p).q'), ('f(1)(2)', '(f(1))(2)'), ('-t[0][1]', '-((t[0])[1])'), ('!o.p.q', '!((o.p).q)'), ('2 ** -1', '2 ** (-1)')]:
+        pre_ = f'{VAR} a = 0; {VAR} b = 0; {VAR} t = [[1, 2]]; {VAR} o = {{p: {{q: 5}}}}; {FUN} f(x) {{ {FUN} g(y) {{ {RET} x + y; }} {RET} g; }}\n'
+        g = f'chain{gi}'; gi += 1
+        cases.append(prog_case(pre_ + f'{P} {chain};\n', 'base', group=g))
+        cases.append(prog_case(pre_ + f'{P} {grouped};\n', 'ladder-parens', group=g))
+    rule = (f'every ordered pair of the {len(allops)} binary operators, and every prefix operator before / after each, written plain and parenthesised as the ladder prescribes ({gi} pairs of programs); '
+            f'{len(bases)} programs (generated, a third fault-free, and the shipped examples) x 9 variants: re-laid-out twice with blanks, tabs, line breaks outside ধরি declarations and {len(COMMENTS)} comment shapes between tokens; '
             'digits swapped between scripts; && / এবং and || / বা exchanged; user identifiers renamed to fresh Latin / Bangla names; all of these combined; redundant parentheses around value-producing sub-expressions; never-executed code inserted. '
             'All variants of a program must print the same and fail the same (line numbers and renamed names aside) on the implementation alone, and each must agree with the model. Non-trivial = all.')
     return {'cases': cases, 'rule': rule, 'exhaustive': False, 'oracles': [oracle_c18]}
